@@ -989,7 +989,19 @@ pub fn fixed_pkt(rng: &mut Rng, version: u16, n: usize) -> FixedPkt {
     let rl = if version == 5 { 48 } else { 52 };
     let layout: &[(&str, usize, usize)] = if version == 5 { crate::tables::V5_RECORD } else { crate::tables::V7_RECORD };
     let mut records: Vec<Vec<u8>> = Vec::with_capacity(n);
+    // one packet in thirty: every record is a run of (version-like word, small count) pairs - wherever
+    // a mislocated header read lands inside the record area, it finds something that looks like one
+    let confusable: Option<(u16, u16)> = if rng.chance(1, 30) { Some((*rng.pick(&[5u16, 7, 9, 10]), rng.below(3) as u16)) } else { None };
     for _ in 0..n {
+        if let Some((v, c)) = confusable {
+            let mut r = Vec::with_capacity(rl);
+            while r.len() < rl {
+                r.extend_from_slice(&v.to_be_bytes());
+                r.extend_from_slice(&c.to_be_bytes());
+            }
+            records.push(r);
+            continue;
+        }
         // exporters repeat flow records; a constant-filled body is also legal
         if !records.is_empty() && rng.chance(1, 10) {
             let prev = records[records.len() - 1].clone();
